@@ -1,7 +1,7 @@
 (* C07 - best, worst and tournament selection apply the intended selection pressure. *)
 From Coq Require Import List ZArith QArith.
 Import ListNotations.
-From UEC Require Import Base.Dist Ec.Select Ec.SelectProps Ec.LexProps Ec.TournamentCor Ec.TournamentLaw.
+From UEC Require Import Base.Dist Ec.Select Ec.SelectProps Ec.LexProps Ec.TournamentCor Ec.TournamentLaw Ec.BinomN.
 
 Theorem C07_best_is_maximal : forall pol pop i,
   possible (select pol pop SBest) (inl i) ->
@@ -46,6 +46,12 @@ Theorem C07_rank_law : forall pol pop k i,
   prob (select pol pop (STournament k)) (is_idx i) == qnat (binom (r - 1) (k - 1)) / qnat (binom (length pop) k).
 Proof. exact tournament_rank_law. Qed.
 Print Assumptions C07_rank_law.
+
+(* the binomial coefficients of the rank law can be computed multiplicatively - C(n,k) = C(n,k-1) (n-k+1) / k over N -
+   which is how the law is evaluated for populations of hundreds of individuals in the correspondence check *)
+Theorem C07_binomial_multiplicative : forall n k, binomN (N.of_nat n) k = N.of_nat (binom n k).
+Proof. exact binomN_spec. Qed.
+Print Assumptions C07_binomial_multiplicative.
 
 (* a tournament of size 1 is uniform random choice: every individual with probability exactly 1/n *)
 Theorem C07_size_1_is_uniform : forall pol pop i, (i < length pop)%nat ->
